@@ -75,6 +75,8 @@ def mk_tape(r, mode, scale=1.0, zero=True, P=None):
         t["tdep"] = r.choice([2, 3])
     if P is not None and P.get("np_samples") and r.random() < P["np_samples"]:
         t["np"] = True
+    if P is not None and P.get("sdep") and r.random() < P["sdep"]:
+        t["sdep"] = True
     return t
 
 
@@ -343,6 +345,8 @@ def gen_spec(r, P):
             S["plan"].append(["time", x])
             if r.random() < P.get("spawn", 0.0):
                 S["plan"].append(["spawn"])
+            if r.random() < P.get("peek", 0.3):
+                S["plan"].append(["peek"])
         S["plan"].append(["time", T])
     elif pk == "cust":
         S["plan"] = [["cust", r.randint(1, 15), r.choice(["Complete", "Finish", "Arrive", "Accept"])]]
